@@ -158,7 +158,10 @@ def build_intersection(s):
 
 def build_network(s):
     """s: {"lanelets": [...], "signs": [...], "lights": [...], "intersections": [...]}"""
-    net = LaneletNetwork(MapInformation())
+    if s.get("lanelets"):
+        net = LaneletNetwork(MapInformation())
+    else:
+        net = LaneletNetwork.create_from_lanelet_list([])  # a map without lanelets (as the readers build it)
     for la in s.get("lanelets", []):
         net.add_lanelet(build_lanelet(la))
     for sg in s.get("signs", []):
